@@ -80,7 +80,7 @@ M = [
     ("c12-dup-by-name", "C12", "mingus/containers/note_container.py", "        if note not in self.notes:\n            self.notes.append(note)\n            self.notes.sort()",
      "        if note.name not in [x.name for x in self.notes] or note not in self.notes:\n            self.notes.append(note)\n            self.notes.sort()",
      "duplicate test by name: an enharmonic name of a pitch already present is added again"),
-    ("c12-octave-rule", "C12", "mingus/containers/note_container.py", "                if Note(note, self.notes[-1].octave) < self.notes[-1]:", "                if Note(note, self.notes[-1].octave) <= self.notes[-1]:",
+    ("c12-octave-rule", "C12", "mingus/containers/note_container.py", "                    note.octave -= (int(note) - int(top)) // 12", "                    note.octave -= (int(note) - int(top) - 1) // 12",
      "a bare name equal in pitch to the top note is voiced an octave higher"),
     ("c12-remove-octave", "C12", "mingus/containers/note_container.py", "                    if x.octave != octave and octave != -1:\n                        res.append(x)",
      "                    if x.octave < octave and octave != -1:\n                        res.append(x)", "removal with octave also removes higher octaves"),
